@@ -839,13 +839,12 @@ def eat (m : Mach) (inp : Str) (pat : Str) (eq : Char → Char → Bool) : Optio
   let mi := eatSkipLf m inp
   -- push_front(temp_buf)
   let all := mi.1.tempBuf ++ mi.2
-  let m := mi.1.setTempBuf []
   match eatCmp eq all pat with
-  | some true => (some true, m, all.drop pat.length)
-  | some false => (some false, m, all)
+  | some true => (some true, mi.1.setTempBuf [], all.drop pat.length)
+  | some false => (some false, mi.1.setTempBuf [], all)
   | none =>
-    if m.atEof then (some false, m, all)
-    else (none, m.setTempBuf all, [])
+    if mi.1.atEof then (some false, mi.1.setTempBuf [], all)
+    else (none, mi.1.setTempBuf all, [])
 
 /-! ### named character references: lookup in the generated table
 
@@ -1147,28 +1146,35 @@ def stepBav (o : Opts) (pol : Pol) (m : Mach) (inp : Str) : R :=
       ofSig (emitTag pol .data (badChar o d.1)) d.2
     else .cont (to (.attributeValue .unquoted) m) inp
 
+/-- look-ahead keywords -/
+def kwDashDash : Str := ['-', '-']
+def kwDoctype : Str := ['d', 'o', 'c', 't', 'y', 'p', 'e']
+def kwCdata : Str := ['[', 'C', 'D', 'A', 'T', 'A', '[']
+def kwPublic : Str := ['p', 'u', 'b', 'l', 'i', 'c']
+def kwSystem : Str := ['s', 'y', 's', 't', 'e', 'm']
+
 def stepMdo (o : Opts) (pol : Pol) (m : Mach) (inp : Str) : R :=
-  match eat m inp "--".toList eqExact with
+  match eat m inp kwDashDash eqExact with
   | (none, m, inp) => .suspend m inp
   | (some true, m, inp) => .cont (to .commentStart (clearComment m)) inp
   | (some false, m, inp) =>
-    match eat m inp "doctype".toList eqCi with
+    match eat m inp kwDoctype eqCi with
     | (none, m, inp) => .suspend m inp
     | (some true, m, inp) => .cont (to .doctype m) inp
     | (some false, m, inp) =>
       if pol.cdataOk m.out then
-        match eat m inp "[CDATA[".toList eqExact with
+        match eat m inp kwCdata eqExact with
         | (none, m, inp) => .suspend m inp
         | (some true, m, inp) => .cont (to .cdataSection (clearTemp m)) inp
         | (some false, m, inp) => .cont (to .bogusComment (clearComment (badChar o m))) inp
       else .cont (to .bogusComment (clearComment (badChar o m))) inp
 
 def stepAdn (o : Opts) (pol : Pol) (m : Mach) (inp : Str) : R :=
-  match eat m inp "public".toList eqCi with
+  match eat m inp kwPublic eqCi with
   | (none, m, inp) => .suspend m inp
   | (some true, m, inp) => .cont (to (.afterDoctypeKeyword .pub) m) inp
   | (some false, m, inp) =>
-    match eat m inp "system".toList eqCi with
+    match eat m inp kwSystem eqCi with
     | (none, m, inp) => .suspend m inp
     | (some true, m, inp) => .cont (to (.afterDoctypeKeyword .sys) m) inp
     | (some false, m, inp) =>
